@@ -851,7 +851,7 @@ def _run_variant(job):
                             os.path.join(tmp, "geometry_tools"))
             finally:
                 shutil.rmtree(out, ignore_errors=True)
-            err = None if n > 20 else f"only {n} sites rewritten"
+            err = None if n >= 5 else f"only {n} sites rewritten"
             kind = "neutral"
         else:
             err = _apply(tmp, rel, old, new)
@@ -908,7 +908,7 @@ def run(pids=None, jobs=16, root=None, quiet=False):
                              None, suffix, None, None, src))
     # generated refactorings of the whole package (tools/gen_refactor.py)
     for mode in ("rettemp", "ifinvert", "eqswap", "cmpswap", "kwreverse",
-                 "npfunc", "lastkw"):
+                 "npfunc", "lastkw", "argtemp", "comploop"):
         for p in allp:
             if want is None or p in want:
                 todo.append(("gen", f"gen-{mode}-{p}", [p], None, mode,
